@@ -76,6 +76,105 @@ def b64dec : List Char → Option (List UInt8)
       | _, _, _, _, _ => none
   | _ => none
 
+def dateLo' : Int := -62167219200
+def dateHi' : Int := 253402300799
+
+/-- days from 1970-01-01 to the civil date `y-m-d` (proleptic Gregorian calendar; Hinnant's algorithm) -/
+def daysFromCivil (y : Int) (m d : Nat) : Int :=
+  let y' : Int := if m ≤ 2 then y - 1 else y
+  let era : Int := y' / 400
+  let yoe : Int := y' - era * 400
+  let mp : Int := (((m : Int) + 9) % 12)
+  let doy : Int := (153 * mp + 2) / 5 + (d : Int) - 1
+  let doe : Int := yoe * 365 + yoe / 4 - yoe / 100 + doy
+  era * 146097 + doe - 719468
+
+/-- the civil date of a day number (days since 1970-01-01; Hinnant's `civil_from_days`) -/
+def civilFromDays (z0 : Int) : Int × Nat × Nat :=
+  let z := z0 + 719468
+  let era := z / 146097
+  let doe := z - era * 146097
+  let yoe := (doe - doe / 1460 + doe / 36524 - doe / 146096) / 365
+  let y := yoe + era * 400
+  let doy := doe - (365 * yoe + yoe / 4 - yoe / 100)
+  let mp := (5 * doy + 2) / 153
+  let d := doy - (153 * mp + 2) / 5 + 1
+  let m := if mp < 10 then mp + 3 else mp - 9
+  (if m ≤ 2 then y + 1 else y, m.toNat, d.toNat)
+
+def digitChar (d : Nat) : Char := Char.ofNat (48 + d % 10)
+def digitVal? (ch : Char) : Option Nat := if 48 ≤ ch.toNat ∧ ch.toNat ≤ 57 then some (ch.toNat - 48) else none
+
+def show2 (n : Nat) : List Char := [digitChar (n / 10), digitChar n]
+def show4 (n : Nat) : List Char := [digitChar (n / 1000), digitChar (n / 100), digitChar (n / 10), digitChar n]
+def show9 (n : Nat) : List Char :=
+  [digitChar (n / 100000000), digitChar (n / 10000000), digitChar (n / 1000000), digitChar (n / 100000),
+   digitChar (n / 10000), digitChar (n / 1000), digitChar (n / 100), digitChar (n / 10), digitChar n]
+
+/-- fixed-width decimal: every character a digit -/
+def parseDigits : List Char → Option Nat
+  | [] => some 0
+  | cs => cs.foldl (fun acc ch => match acc, digitVal? ch with
+    | some n, some d => some (n * 10 + d)
+    | _, _ => none) (some 0)
+
+def dropTrailingZeros (cs : List Char) : List Char := (cs.reverse.dropWhile (· == '0')).reverse
+
+/-- the broken-down fields of an RFC 3339 UTC time stamp -/
+structure Stamp where
+  year : Nat
+  month : Nat
+  day : Nat
+  hour : Nat
+  minute : Nat
+  second : Nat
+  nanos : Nat
+deriving DecidableEq
+
+/-- `YYYY-MM-DDTHH:MM:SS[.f…]Z`: the sub-second digits only when non-zero, trailing zeros dropped -/
+def showStamp (t : Stamp) : List Char :=
+  show4 t.year ++ '-' :: show2 t.month ++ '-' :: show2 t.day ++ 'T' :: show2 t.hour ++ ':' :: show2 t.minute ++
+    ':' :: show2 t.second ++ (if t.nanos = 0 then [] else '.' :: dropTrailingZeros (show9 t.nanos)) ++ ['Z']
+
+/-- reader for the `Z` form (what `to_xml_format` writes): 1–9 sub-second digits -/
+def parseStamp (cs : List Char) : Option Stamp :=
+  match cs with
+  | y1 :: y2 :: y3 :: y4 :: '-' :: m1 :: m2 :: '-' :: d1 :: d2 :: 'T' :: h1 :: h2 :: ':' :: i1 :: i2 :: ':' ::
+      s1 :: s2 :: rest =>
+    let frac : Option Nat := match rest with
+      | ['Z'] => some 0
+      | '.' :: r =>
+        match r.reverse with
+        | 'Z' :: fr =>
+          let ds := fr.reverse
+          if ds.isEmpty ∨ 9 < ds.length then none
+          else parseDigits (ds ++ List.replicate (9 - ds.length) '0')
+        | _ => none
+      | _ => none
+    match parseDigits [y1, y2, y3, y4], parseDigits [m1, m2], parseDigits [d1, d2], parseDigits [h1, h2],
+          parseDigits [i1, i2], parseDigits [s1, s2], frac with
+    | some y, some m, some d, some h, some i, some s, some f => some ⟨y, m, d, h, i, s, f⟩
+    | _, _, _, _, _, _, _ => none
+  | _ => none
+
+/-- `plist::Date::to_xml_format` for real: `none` (a panic) outside years 0000–9999 -/
+def rfc3339Show (d : Date) : Option String :=
+  if dateLo' ≤ d.secs ∧ d.secs ≤ dateHi' ∧ d.nanos < 1000000000 then
+    let days := d.secs / 86400
+    let sod := (d.secs % 86400).toNat
+    let (y, m, dd) := civilFromDays days
+    some (String.ofList (showStamp ⟨y.toNat, m, dd, sod / 3600, sod / 60 % 60, sod % 60, d.nanos⟩))
+  else none
+
+/-- `plist::Date::from_xml_format` on the `Z` form -/
+def rfc3339Read (s : String) : Option Date :=
+  match parseStamp s.toList with
+  | some t =>
+    if 1 ≤ t.month ∧ t.month ≤ 12 ∧ 1 ≤ t.day ∧ t.day ≤ 31 ∧ t.hour < 24 ∧ t.minute < 60 ∧ t.second < 60 then
+      some ⟨daysFromCivil t.year t.month t.day * 86400 + (t.hour * 3600 + t.minute * 60 + t.second : Nat), t.nanos⟩
+    else none
+  | none => none
+
 /-- dates the stand-in prints: the range `Date::to_xml_format` accepts (years 0000–9999), nanos < 10⁹ -/
 def dateLo : Int := -62167219200
 def dateHi : Int := 253402300799
